@@ -7,7 +7,12 @@ package main
 //                      this same harness a second time with `go build -overlay` (relay.go and
 //                      buffer.go rewritten by go/cmd/overlay: a seeded yield/sleep in front of
 //                      every atomic, lock, channel and buffer operation; /repo untouched) and
-//                      runs group "relay_inner" of that binary; results are merged.
+//                      runs group "relay_inner" of that binary twice; results are merged:
+//                      pass 1 perturbation only; pass 2 perturbation + TRACE VALIDATION
+//                      (VERIF_VL=1: the overlay's wrappers log one event per synchronisation
+//                      operation executed, go/cmd/overlay/vl.go; every run becomes a case
+//                      `relay_trace` that the extracted Relay.rv_run must replay event by event
+//                      and whose final logs must equal the bytes the writers received).
 // group "relay_inner": the scenarios only (what the overlay binary executes).
 //
 // ORACLE (per direction, schedule independent): the bytes the opposite writer received are
@@ -42,7 +47,6 @@ import (
 // build of this harness compiles (the functions exist only in the overlay's helper file).
 var c13VlDump func(*trzsz.TrzszRelay) ([]string, bool)
 var c13VlRelease func(*trzsz.TrzszRelay)
-var c13VlPoints func() []string
 
 func init() {
 	groups["relay"] = genC13Relay
